@@ -138,3 +138,107 @@ func runC11_7(c *core.Ctx) {
 		}
 	}
 }
+
+func init() {
+	register(&core.Rule{ID: "C11.9", Prop: "C11", MinSites: 3,
+		Desc: "a partly consumed segment goes back shortened: between `b := llb.pop()`, a use of b.buf as the source of a copy/Write or a count taken from it, and pushFront(b), b.buf is re-sliced from the consumed count on (b.buf = b.buf[k:]); putting it back whole would deliver the consumed bytes twice",
+		Run: runC11_9})
+}
+
+func runC11_9(c *core.Ctx) {
+	a := llAnchors(c)
+	if a == nil {
+		return
+	}
+	for _, f := range a.funcs {
+		if f.Obj == a.pop || f.Obj == a.pushFront || f.Obj == a.pushBack {
+			continue
+		}
+		holders := map[types.Object]bool{}
+		ast.Inspect(f.Decl.Body, func(n ast.Node) bool {
+			if as, ok := n.(*ast.AssignStmt); ok && len(as.Lhs) == 1 && len(as.Rhs) == 1 {
+				if call, ok := ast.Unparen(as.Rhs[0]).(*ast.CallExpr); ok && flow.IsCall(f.Info, call, a.pop) {
+					if obj := flow.ObjOf(f.Info, as.Lhs[0]); obj != nil {
+						holders[obj] = true
+					}
+				}
+			}
+			return true
+		})
+		for h := range holders {
+			h := h
+			isHBuf := func(e ast.Expr) bool {
+				sel, ok := ast.Unparen(e).(*ast.SelectorExpr)
+				return ok && flow.FieldOf(f.Info, sel) == a.nodeBuf && flow.ObjOf(f.Info, sel.X) == h
+			}
+			const (
+				sFresh = iota
+				sUsed
+				sCut
+			)
+			var bad token.Pos
+			pushes := 0
+			record := false
+			au := &flow.Auto{Start: sFresh}
+			au.Node = func(b *flow.Block, i int, n ast.Node, st int) int {
+				flow.Events(n, func(x ast.Node) {
+					switch y := x.(type) {
+					case *ast.AssignStmt:
+						if len(y.Lhs) == 1 && len(y.Rhs) == 1 {
+							if flow.ObjOf(f.Info, y.Lhs[0]) == h {
+								st = sFresh // popped anew
+								return
+							}
+							if isHBuf(y.Lhs[0]) {
+								if se, ok := ast.Unparen(y.Rhs[0]).(*ast.SliceExpr); ok && isHBuf(se.X) && se.Low != nil && se.High == nil {
+									if tv, ok := f.Info.Types[se.Low]; !ok || tv.Value == nil {
+										st = sCut
+									}
+								}
+							}
+						}
+					case *ast.CallExpr:
+						if flow.IsCall(f.Info, y, a.pushFront) && len(y.Args) == 1 && flow.ObjOf(f.Info, y.Args[0]) == h {
+							if record {
+								pushes++
+							}
+							if st == sUsed && record && bad == token.NoPos {
+								bad = y.Pos()
+							}
+							return
+						}
+						for _, arg := range y.Args {
+							if isHBuf(arg) && st == sFresh {
+								if _, isPut := poolPut(f, y); isPut == "" {
+									st = sUsed
+								}
+							}
+						}
+					}
+				})
+				return st
+			}
+			g := f.Graph()
+			sol := g.Run(au)
+			record = true
+			for _, b := range g.Blocks {
+				if !sol.Seen[b.ID] {
+					continue
+				}
+				for _, s0 := range flow.States(sol.In[b.ID]) {
+					st := s0
+					for i, n := range b.Nodes {
+						st = au.Node(b, i, n, st)
+					}
+				}
+			}
+			record = false
+			if pushes == 0 {
+				continue
+			}
+			construct := "pushFront(" + h.Name() + ") after use"
+			c.Check(bad == token.NoPos, f.Name, construct, f.Decl.Pos(), "re-sliced from the consumed count before it is pushed back",
+				"a segment whose bytes were handed to a copy/Write since it was popped is pushed back without `"+h.Name()+".buf = "+h.Name()+".buf[k:]`: the consumed bytes are delivered again by the next Read/WriteTo")
+		}
+	}
+}
